@@ -25,7 +25,7 @@ def sh(cmd, **kw):
 
 def main():
     src, wt = sys.argv[1], sys.argv[2]
-    rnd = '2'
+    rnd = os.environ.get('SEED_ROUND', '2')
     only = sys.argv[3].split(',') if len(sys.argv) > 3 else []
 
     def demo(path):
